@@ -37,7 +37,7 @@ from lib import gen
 from lib.harness import case_rng
 from lib.model import NODE_IS_SAMPLE, NULL, RowModel, allele_at, forest, mutation_parents
 from lib.props.c04 import expected_mutation_node, expected_parent_map
-from lib.tsk import from_tables, to_tables
+from lib.tsk import from_tables, to_tables, to_ts
 
 ID = "C11"
 LIBERR = (tskit.LibraryError, ValueError)
@@ -59,6 +59,7 @@ DEFAULT_OPTS = {"unary": "none", "keep_input_roots": False}
 
 def cases(tier, seed):
     n = 30000 if tier == "quick" else 3000000
+    yield {"gen": "witness-extend-detached", "k": -1}  # the recorded known finding, always exercised
     for k in range(n):
         yield {"gen": "arg-extend" if k % 8 == 5 else "walk", "k": k}
 
@@ -958,8 +959,24 @@ def build_arg(rng):
     return m
 
 
+def witness_extend_detached():
+    m = RowModel(10.0)
+    m.nodes = [(NODE_IS_SAMPLE, 0.0, NULL, NULL, b""), (0, 2.0, NULL, NULL, b""), (0, 1.0, NULL, NULL, b"")]
+    m.edges = [(0.0, 5.0, 2, 0, b""), (0.0, 5.0, 1, 2, b""), (5.0, 10.0, 1, 0, b"")]
+    m.edges.sort(key=lambda e: (m.nodes[e[2]][1], e[2], e[3], e[0]))
+    m.sites = [(7.0, "A", b"")]
+    m.mutations = [(0, 2, "T", NULL, 1.5, b"")]
+    return m
+
+
 def run_case(case, ctx):
     rng = case_rng(case)
+    if case["gen"] == "witness-extend-detached":
+        m = witness_extend_detached()
+        ctx.sig(m.signature(), nontrivial=True)
+        ctx.count("extend:detached-mutation-inputs")
+        check_extend_detached(ctx, m)
+        return
     if case["gen"] == "arg-extend":
         m = build_arg(rng)
         for t in gen.topo_tags(m):
@@ -1014,11 +1031,44 @@ def run_case(case, ctx):
     m3 = m.copy()
     m3.migrations = []
     m3.mutations = [mu[:4] + (mutation_time(m, k),) + mu[5:] for k, mu in enumerate(m.mutations)]
+    m3d = m3.copy()
     ndet = drop_detached_mutations(m3)
     if ndet:
-        ctx.count("either:extend-detached-mutations-dropped", ndet)
+        ctx.count("extend:detached-mutation-inputs")
+        check_extend_detached(ctx, m3d)
     if valid_mutation_times(m3) and loads(m3):
         check_extend(ctx, m3, rng)
+
+
+def check_extend_detached(ctx, mi):
+    """Known finding (recorded in known_findings.json): inputs that carry a mutation on a non-sample node which is
+    NOT part of the marginal tree at its site.  extend_haplotypes documents 'will not affect the genotype matrix',
+    but extending such a node into that tree makes its mutation visible.  Only the genotype clause is checked here, and
+    a changed genotype is attributed to this mechanism only when the site carries such a detached mutation."""
+    if not (valid_mutation_times(mi) and loads(mi)):
+        return
+    ts = to_ts(mi)
+    try:
+        out = ts.extend_haplotypes()
+    except tskit.LibraryError:
+        ctx.count("extend:detached-refused")
+        return
+    mo = from_tables(out.dump_tables())
+    detached_sites = set()
+    for mu in mi.mutations:
+        f = forest(mi, mi.sites[mu[0]][0])
+        if f.is_isolated(mu[1]) and not mi.is_sample(mu[1]):
+            detached_sites.add(mu[0])
+    for j, s in enumerate(mi.sites):
+        fi, fo = forest(mi, s[0]), forest(mo, s[0])
+        for u in mi.samples():
+            ctx.count("extend:genotypes-detached-class")
+            a, b = allele_at(mi, fi, j, u), allele_at(mo, fo, j, u)
+            if a != b:
+                key = ("extend_haplotypes/genotype-changed/mutation-on-node-absent-from-marginal-tree"
+                       if j in detached_sites else "extend_haplotypes/genotype-changed")
+                ctx.violation(key, f"sample {u} at site {j} (x={s[0]}) has allele {b!r} after extend_haplotypes(), was {a!r}",
+                              {"model": mi.to_json()})
 
 
 def drop_detached_mutations(m):
